@@ -8,5 +8,14 @@ RSA = dict(
     cases=[dict(name="k%d_alg%d" % (k, a), tier=("quick" if k == 96 else "thorough"), defs={"VF_K": k, "VF_ALG": a})
            for k in (96, 128) for a in (1, 256, 384, 512)],
 )
-HARNESSES = [RSA]
+DH = dict(
+    name="dh_range", src="dh_range.c", checks=COMMON["MEMCHECKS"],
+    renames={"crypto/math/pstm.c": ["pstm_exptmod"]},
+    functions=["psDhGenSharedSecret", "pstm_init", "pstm_init_for_read_unsigned_bin", "pstm_read_unsigned_bin", "pstm_count_bits", "pstm_add_d", "pstm_cmp", "pstm_clear", "pstm_to_unsigned_bin"],
+    sources=["crypto/pubkey/dh_gen_secret.c", "crypto/math/pstm.c"],
+    assumptions=["dh_range: pstm_exptmod is a stub (reached flag, arbitrary result < 2^64); prime of 9 bytes, public value of <= 2 digits (clamped); allocation never fails here"],
+    unwind=60,
+    cases=[dict(name="p%d_y%d" % (pb, yu), defs={"VF_PB": pb, "VF_YU": yu}) for pb, yu in ((9, 2), (9, 1), (8, 1), (1, 1), (9, 0))],
+)
+HARNESSES = [RSA]  # DH: no verdict within the cap yet (heap-backed bignums), see DESIGN.md
 PROPERTY = dict(level="model_checking", explanation="", bounds="", outside="", assumptions=[])
